@@ -130,5 +130,6 @@ var harnessKind = map[string]string{
 	"h3acc":   "H3 accumulation-transaction simulation: real PVM.Psi_A on generated programs/states, host calls observed through wrappers in PVM.AccumulateOmegas, abort points injected through the gas limit, reference-model oracles in exact integers",
 	"h5cache": "H5 component-history simulation: root-computation histories on a live ChainState with the leaf-cache capacity as a randomised knob, cached vs uncached differential oracle",
 	"h1tel":   "H1 telemetry simulation: real tcpClient goroutines under a seeded park/release scheduler in a synctest bubble, simulated dialer/conn with fault injection, receiver-model oracle",
+	"h6codec": "H6 codec simulation: concurrent tasks encode / decode generated protocol values through the shared encoder pool under a seeded scheduler, a simulated sync.Pool and simulated map iteration order; reference-encoding oracle",
 	"h5db":    "H5 component-history simulation: tape-generated operation histories against the three real database providers vs a sorted-map model, caller-buffer reuse as the injected fault",
 }
